@@ -67,6 +67,7 @@ func cmdRun(args []string) {
 	profile := fs.Bool("profile", false, "print solver query sites")
 	dump := fs.Bool("dump-paths", false, "print the decision trace of every path")
 	cpuprof := fs.String("cpuprofile", "", "write cpu profile")
+	tierFlag := fs.Int("tier", 0, "0 quick, 1 thorough")
 	fs.Parse(args)
 	if *cpuprof != "" {
 		f, _ := os.Create(*cpuprof)
@@ -97,6 +98,7 @@ func cmdRun(args []string) {
 		}
 		ex.profile = *profile
 		ex.dump = *dump
+		ex.tier = *tierFlag
 		st := ex.Run()
 		if *profile {
 			type kv struct {
